@@ -57,16 +57,23 @@ package cmdutils
 //@   loop 0 step [every-choice-is-a-block] ghost("visited")
 
 // Every container kind goes through visitGroupStmt with its own statements and the flag of its position.
+// the line that opens a block is printed from a fixed format with the model's text as arguments: text of the model
+// (a loop criterion ending in '%') is never itself interpreted as a format
 //@ func (*SequenceDiagramVisitor).visitCond
 //@   assert @call:cmdutils.(*SequenceDiagramVisitor).visitGroupStmt [own-statements] arg1 == e && arg2 == c.GetStmt() && arg3 == e.isLastStmt(i)
+//@   assert @call:cmdutils.(*SequenceDiagramVisitor).visitGroupStmt [block-header-is-a-fixed-format] arg4 == "opt %s\n"
 //@ func (*SequenceDiagramVisitor).visitLoop
 //@   assert @call:cmdutils.(*SequenceDiagramVisitor).visitGroupStmt [own-statements] arg1 == e && arg2 == c.GetStmt() && arg3 == e.isLastStmt(i)
+//@   assert @call:cmdutils.(*SequenceDiagramVisitor).visitGroupStmt [block-header-is-a-fixed-format] arg4 == "loop %s %s\n"
 //@ func (*SequenceDiagramVisitor).visitLoopN
 //@   assert @call:cmdutils.(*SequenceDiagramVisitor).visitGroupStmt [own-statements] arg1 == e && arg2 == c.GetStmt() && arg3 == e.isLastStmt(i)
+//@   assert @call:cmdutils.(*SequenceDiagramVisitor).visitGroupStmt [block-header-is-a-fixed-format] arg4 == "loop %d times\n"
 //@ func (*SequenceDiagramVisitor).visitForeach
 //@   assert @call:cmdutils.(*SequenceDiagramVisitor).visitGroupStmt [own-statements] arg1 == e && arg2 == c.GetStmt() && arg3 == e.isLastStmt(i)
+//@   assert @call:cmdutils.(*SequenceDiagramVisitor).visitGroupStmt [block-header-is-a-fixed-format] arg4 == "loop for each %s\n"
 //@ func (*SequenceDiagramVisitor).visitGroup
 //@   assert @call:cmdutils.(*SequenceDiagramVisitor).visitGroupStmt [own-statements] arg1 == e && arg2 == c.GetStmt() && arg3 == e.isLastStmt(i)
+//@   assert @call:cmdutils.(*SequenceDiagramVisitor).visitGroupStmt [block-header-is-a-fixed-format] arg4 == "group %s\n"
 
 // The recursion cut: an endpoint is expanded only while it is not in progress; the in-progress count of its name goes
 // up by one before its statements are visited and down by one afterwards, and the activation taken for it is released.
